@@ -21,6 +21,7 @@ import (
 //verif:stub (*os.File).Read verifStub_fileRead
 //verif:stub (*os.File).Seek verifStub_fileSeek
 //verif:stub (*os.File).Close verifStub_fileClose
+//verif:stub (*os.File).Truncate verifStub_fileTruncate
 
 type verifInode struct {
 	data   []byte
@@ -171,6 +172,21 @@ func verifStub_fileSeek(f *os.File, offset int64, whence int) (int64, error) {
 	}
 	h.pos = p
 	return p, nil
+}
+
+func verifStub_fileTruncate(f *os.File, size int64) error {
+	h, err := verifHandleOf(f)
+	if err != nil {
+		return err
+	}
+	if size < 0 {
+		return &verifFSError{"invalid argument"}
+	}
+	for int64(len(h.ino.data)) < size {
+		h.ino.data = append(h.ino.data, 0)
+	}
+	h.ino.data = h.ino.data[:size]
+	return nil
 }
 
 func verifStub_fileClose(f *os.File) error {
